@@ -125,7 +125,12 @@ func (*hconc) Run(rc *core.RunCtx) *core.RunResult {
 		if rc.Race {
 			collide = 2 // two jobs inside the same decoder are what the race detector needs
 		}
-		if i > 0 && t.Intn(collide) == 0 {
+		if i == 1 && rc.Race {
+			// identical twins: whatever package-level state the decoder of job0 writes, job1
+			// writes too - unsynchronised, the detector reports it
+			c := *jobs[0]
+			j = &c
+		} else if i > 0 && t.Intn(collide) == 0 {
 			// deliberate collision: the same file again, maybe with another program or option
 			p := jobs[t.Intn(len(jobs))]
 			c := *p
